@@ -394,6 +394,71 @@ Section PMTProofs.
           intros a Ha; simpl in Ha; apply in_or_app; auto.
     Qed.
 
+    (* Soundness for an arbitrary claimed transaction count [n'] (the header
+       does not commit to the count): parser height [hp] against real height [hr]. *)
+    Lemma parse_sound_any n' : NoDup txs -> forall hp hr p bits hs x ms b' h', p < width hr ->
+      C08_PMT.parse hash hash_eq_dec H2 n' hp p bits hs = Some (x, ms, b', h') -> x = calc_hash hr p ->
+      Forall (fun m => In m txs \/ exists a b, m = H2 a b) ms \/ collision \/ leaf_is_node hash H2 txs.
+    Proof.
+      intros ND. induction hp; intros hr p bits hs x ms b' h' Hp HP HX.
+      - left. destruct bits as [|b bits1]; [discriminate|]. simpl in HP.
+        destruct hs as [|y hs1]; [discriminate|]. injection HP as <- <- _ _. subst y.
+        destruct b; [|constructor]. constructor; [|constructor].
+        destruct hr.
+        + left. apply nth_In. rewrite width_cdiv, cdiv_0 in Hp. exact Hp.
+        + right. rewrite calc_hash_S. eauto.
+      - destruct bits as [|b bits1]; [discriminate|].
+        change (C08_PMT.parse hash hash_eq_dec H2 n' (S hp) p (b :: bits1) hs) with
+          (if b then
+            match C08_PMT.parse hash hash_eq_dec H2 n' hp (2 * p) bits1 hs with
+            | None => None
+            | Some (l, ml, bits2, hs2) =>
+              if 2 * p + 1 <? pwidth n' hp then
+                match C08_PMT.parse hash hash_eq_dec H2 n' hp (2 * p + 1) bits2 hs2 with
+                | None => None
+                | Some (r, mr, bits3, hs3) =>
+                  if heqb l r then None else Some (H2 l r, ml ++ mr, bits3, hs3)
+                end
+              else Some (H2 l l, ml, bits2, hs2)
+            end
+          else match hs with [] => None | x :: hs1 => Some (x, [], bits1, hs1) end) in HP.
+        destruct b.
+        2:{ left. destruct hs; [discriminate|]. injection HP as _ <- _ _. constructor. }
+        destruct (C08_PMT.parse hash hash_eq_dec H2 n' hp (2 * p) bits1 hs) as [[[[l ml] bits2] hs2]|] eqn:PL;
+          [|discriminate].
+        destruct hr as [|hr].
+        { (* the real node is a transaction, the message expands it *)
+          right. right. exists (nth p txs h0).
+          assert (HI : In (nth p txs h0) txs) by (apply nth_In; rewrite width_cdiv, cdiv_0 in Hp; exact Hp).
+          simpl in HX.
+          destruct (2 * p + 1 <? pwidth n' hp).
+          - destruct (C08_PMT.parse hash hash_eq_dec H2 n' hp (2 * p + 1) bits2 hs2) as [[[[r mr] bits3] hs3]|];
+              [|discriminate].
+            destruct (heqb l r); [discriminate|]. injection HP as <- _ _ _. eauto.
+          - injection HP as <- _ _ _. eauto. }
+        assert (Hp' : 2 * p < width hr) by (rewrite width_cdiv in *; apply cdiv_child; exact Hp).
+        rewrite calc_hash_S in HX.
+        destruct (2 * p + 1 <? pwidth n' hp) eqn:EP.
+        + destruct (C08_PMT.parse hash hash_eq_dec H2 n' hp (2 * p + 1) bits2 hs2) as [[[[r mr] bits3] hs3]|] eqn:PR;
+            [|discriminate].
+          unfold C08_PMT.heqb in HP. destruct (hash_eq_dec l r) as [|NLR]; [discriminate|].
+          injection HP as <- <- _ _.
+          destruct (h2_inj hash hash_eq_dec H2 _ _ _ _ HX) as [[EL ERt]|C]; [|right; left; exact C].
+          destruct (2 * p + 1 <? width hr) eqn:ER.
+          * apply Nat.ltb_lt in ER.
+            destruct (IHhp _ _ _ _ _ _ _ _ Hp' PL EL) as [FL|A]; [|right; exact A].
+            destruct (IHhp _ _ _ _ _ _ _ _ ER PR ERt) as [FR|A]; [|right; exact A].
+            left. apply Forall_app. split; assumption.
+          * exfalso. congruence.
+        + injection HP as <- <- _ _.
+          destruct (h2_inj hash hash_eq_dec H2 _ _ _ _ HX) as [[EL ERt]|C]; [|right; left; exact C].
+          destruct (2 * p + 1 <? width hr) eqn:ER.
+          * apply Nat.ltb_lt in ER. right. left.
+            apply (sib_eq_collision hr p ND ER). congruence.
+          * destruct (IHhp _ _ _ _ _ _ _ _ Hp' PL EL) as [FL|A]; [|right; exact A].
+            left. exact FL.
+    Qed.
+
     Lemma seg_incl {A} (l : list A) h p x : In x (seg l h p) -> In x l.
     Proof.
       unfold seg. intros HI.
@@ -536,6 +601,28 @@ Section PMTProofs.
     injection HP as <-.
     destruct (parse_sound_node txs _ _ _ _ _ _ _ _ (width_pos txs _ NE) PP EQ) as [F|C]; [|right; exact C].
     left. eapply Forall_impl; [|exact F]. intros a Ha. simpl in Ha. eapply seg_incl; eauto.
+  Qed.
+
+  (* Soundness for any claimed count: whatever count, flags and hashes the
+     message carries, if it verifies against the block's merkle root then every
+     id it yields is an id of the block or an interior-node hash, or an anomaly
+     (collision; a transaction id of the block that is an interior node) is exhibited. *)
+  Theorem parse_sound_any_count txs n' r flags hs ms : NoDup txs ->
+    merkle_root hash H2 txs = Some r ->
+    parse_top hash hash_eq_dec H2 n' r flags hs = Some ms ->
+    Forall (fun m => In m txs \/ exists a b, m = H2 a b) ms
+    \/ collision \/ leaf_is_node hash H2 txs.
+  Proof.
+    intros ND HR HP.
+    assert (NE : txs <> []) by (intros ->; discriminate).
+    rewrite (calc_root_merkle txs NE) in HR. injection HR as <-.
+    unfold parse_top in HP.
+    destruct ((n' =? 0) || (length flags =? 0)); [discriminate|].
+    destruct (parse hash hash_eq_dec H2 n' (pheight n') 0 (unpack_flags flags) hs)
+      as [[[[x ms'] b'] h']|] eqn:PP; [|discriminate].
+    unfold C08_PMT.heqb in HP. destruct (hash_eq_dec x _) as [EQ|_]; [|discriminate].
+    injection HP as <-.
+    exact (parse_sound_any txs n' ND _ _ _ _ _ _ _ _ _ (width_pos txs _ NE) PP EQ).
   Qed.
 
   (* The merkle branch of transaction i evaluates to the block's merkle root. *)
